@@ -49,7 +49,13 @@ struct C19 : Harness {
                     if (*chance(20)) t.setnull("tweak"); else t.set("tweak", *gbytes(bs));
                     t.set("len", bs); p.push_back(t);
                 } else if (w <= 8 && c == 10) p.push_back(mkop("swapModes"));
-                else p.push_back(mkop(*chance(50) ? "encryptBlock" : "decryptBlock").set("in", *gbytes(bs)));
+                else {
+                    // BlockCipher documents that input may overlap output: now and then the two share a buffer at a generated
+                    // distance (|ov| < block size, 0 = in place) and alignment
+                    Op e = mkop(*chance(50) ? "encryptBlock" : "decryptBlock"); e.set("in", *gbytes(bs));
+                    if (*chance(25)) e.set("ov", *irange(-(bs - 1), bs - 1)).set("al", *irange(0, 15)).set("ovl", 1);
+                    p.push_back(e);
+                }
             }
             return p;
         });
@@ -125,7 +131,14 @@ struct C19 : Harness {
                 const Bytes &in = *op.getb("in");
                 Bytes a(in.size()), b;
                 bool dec = op.name == "decryptBlock";
-                if (dec) bc->decryptBlock(a.data(), in.data()); else bc->encryptBlock(a.data(), in.data());
+                if (op.geti("ovl")) {
+                    alignas(16) uint8_t buf[96];
+                    memset(buf, 0xEE, sizeof buf);
+                    uint8_t *ip = buf + 32 + op.geti("al"), *opp = ip + op.geti("ov");
+                    memcpy(ip, in.data(), in.size());
+                    if (dec) bc->decryptBlock(opp, ip); else bc->encryptBlock(opp, ip);
+                    memcpy(a.data(), opp, a.size());
+                } else if (dec) bc->decryptBlock(a.data(), in.data()); else bc->encryptBlock(a.data(), in.data());
                 cs.block(in, b, dec);
                 if (a != b) res = where + "Arduino " + hex(a) + " != C library " + hex(b);
                 if (tweaks_since_block >= 2 || swapped_after_tweak) nt = true;
